@@ -484,6 +484,74 @@ func c02(c *Ctx) {
 		return isCallTo(info, call, "("+sdkMetric+".Reader).register")
 	}, "reader.register(pipeline)")
 
+	c.Rule("R10", "E4 pass-through (siblings int64/float64)", "Add/Record hand (ctx, value, configured attributes) to aggregate on every path; aggregate/observe hand the same value and set to every measure", 8)
+	for _, typ := range []string{"int64Inst", "float64Inst"} {
+		agg := mx.Func("(*" + typ + ").aggregate")
+		for _, m := range []string{"Add", "Record"} {
+			fn := c.Fn(mx, "R10", "(*"+typ+")."+m)
+			if fn == nil || agg == nil {
+				continue
+			}
+			g := mx.FG(fn)
+			sig := fn.Obj.Type().(*types.Signature)
+			calls := g.Match(callToDecl(minfo, agg))
+			good := len(calls) == 1
+			if good {
+				inspectNoLit(calls[0].N, func(n ast.Node) bool {
+					if call, ok := n.(*ast.CallExpr); ok && callToDecl(minfo, agg)(call) {
+						good = len(call.Args) == 3 && sameVar(minfo, call.Args[0], sig.Params().At(0)) && sameVar(minfo, call.Args[1], sig.Params().At(1))
+						if good {
+							ac, isCall := unparen(call.Args[2]).(*ast.CallExpr)
+							cf := (*types.Func)(nil)
+							if isCall {
+								cf = callee(minfo, ac)
+							}
+							good = cf != nil && cf.Name() == "Attributes"
+						}
+					}
+					return true
+				})
+				s2, _ := g.ReachFromEntry(func(x *GNode) bool { return x == calls[0] }, nil)
+				good = good && !s2[g.Exit]
+			}
+			c.Check(good, "R10", "sdk/metric|(*"+typ+")."+m+"|aggregate(ctx, val, config.Attributes()) on every path", at(mx.M, fn.Pos()), "the measurement is forwarded unchanged", "a measurement can be dropped or altered before it reaches the aggregators (value or attribute set not passed through)")
+		}
+	}
+	for _, nm := range []string{"(*int64Inst).aggregate", "(*float64Inst).aggregate", "measures.observe", "observer.ObserveInt64", "observer.ObserveFloat64"} {
+		fn := c.Fn(mx, "R10", nm)
+		if fn == nil {
+			continue
+		}
+		sig := fn.Obj.Type().(*types.Signature)
+		// the value parameter: the first parameter of numeric type
+		var valP *types.Var
+		for i := 0; i < sig.Params().Len(); i++ {
+			if b, ok := sig.Params().At(i).Type().Underlying().(*types.Basic); ok && b.Info()&types.IsNumeric != 0 && valP == nil {
+				valP = sig.Params().At(i)
+			}
+			if _, ok := sig.Params().At(i).Type().(*types.TypeParam); ok && valP == nil {
+				valP = sig.Params().At(i)
+			}
+		}
+		good := false
+		inspectNoLit(fn.Body(), func(n ast.Node) bool {
+			call, ok := n.(*ast.CallExpr)
+			if !ok || len(call.Args) != 3 {
+				return true
+			}
+			v, isV := objOf(minfo, call.Fun).(*types.Var)
+			if !isV {
+				return true
+			}
+			if nn := namedOf(v.Type()); nn == nil || nn.Obj().Name() != "Measure" {
+				return true
+			}
+			good = valP != nil && sameVar(minfo, call.Args[1], valP)
+			return true
+		})
+		c.Check(good, "R10", "sdk/metric|"+nm+"|measure called with the caller's value", at(mx.M, fn.Pos()), "value passed through", "the value handed to the aggregators is not the recorded one")
+	}
+
 	c.Rule("R6", "E3 ordering + E1", "pipeline.produce: callbacks (both kinds) run before the aggregations are computed, all under the pipeline lock; every instrument's compAgg is called", 3)
 	if fn := c.Fn(mx, "R6", "(*pipeline).produce"); fn != nil {
 		g := mx.FG(fn)
